@@ -153,6 +153,9 @@ type C16Case struct {
 	// LateAt >= 0: the last server cannot be dialled until envelope number LateAt has been sent (dials before that fail);
 	// such cases settle after every envelope so that each failed dial is fully processed
 	LateAt int `json:"late_at"`
+	// ReattachAt >= 0: before envelope number ReattachAt, client c0 attaches again under its name (its old connection
+	// stays up, merely superseded); from then on everything for c0 must reach the new connection and nothing the old one
+	ReattachAt int `json:"reattach_at"`
 }
 
 func genC16(t *rapid.T) C16Case {
@@ -201,6 +204,10 @@ func genC16(t *rapid.T) C16Case {
 			e.Spec = &sp
 		}
 		c.Envs = append(c.Envs, e)
+	}
+	c.ReattachAt = -1
+	if rapid.IntRange(0, 3).Draw(t, "reattach") == 0 {
+		c.ReattachAt = rapid.IntRange(0, n).Draw(t, "reattach_at")
 	}
 	return c
 }
@@ -273,6 +280,7 @@ func execC16(t *testing.T, c C16Case) (v Verdict) {
 	got := map[string][]*kit.Rpc{}
 	drops0 := goat.VerifCounter("proxy.drop")
 	var drops int64
+	strayOld := 0
 	res := kit.Bubble(t, func() {
 		var rewrite goat.RpcIntercepter
 		switch c.Rewrite {
@@ -335,7 +343,15 @@ func execC16(t *testing.T, c C16Case) (v Verdict) {
 		} else {
 			close(attached)
 		}
+		var superseded *kit.Link
 		for i, e := range c.Envs {
+			if c.ReattachAt >= 0 && i == c.ReattachAt {
+				kit.Settle()
+				collect()
+				superseded = w.link("c0")
+				w.attach("c0") // c0 connects again under its name; the old connection is not told
+				kit.Settle()
+			}
 			if c.LateAt >= 0 && i == c.LateAt {
 				w.mu.Lock()
 				delete(w.dialErr, fmt.Sprintf("s%d", c.Servers-1)) // the peer comes up
@@ -354,6 +370,12 @@ func execC16(t *testing.T, c C16Case) (v Verdict) {
 		kit.Settle()
 		<-attached
 		collect()
+		if superseded != nil {
+			if stray := superseded.A.ReadAvailable(); len(stray) > 0 {
+				strayOld = len(stray)
+			}
+			superseded.Close()
+		}
 		drops = goat.VerifCounter("proxy.drop") - drops0
 		w.cancel()
 		w.mu.Lock()
@@ -365,6 +387,9 @@ func execC16(t *testing.T, c C16Case) (v Verdict) {
 	})
 	if res.Panic != nil {
 		v.failf("panic: %v\n%s", res.Panic, res.Stack)
+	}
+	if strayOld > 0 {
+		v.failf("%d envelopes for c0 were written to the connection that c0 had replaced by attaching again", strayOld)
 	}
 	if drops != 0 {
 		v.failf("proxy dropped %d envelopes although at most %d were outstanding per destination", drops, c.Batch)
@@ -433,7 +458,7 @@ func execC16(t *testing.T, c C16Case) (v Verdict) {
 			nt = true
 		}
 	}
-	v.Info = kit.CaseInfo{Labels: []string{"rewrite=" + c.Rewrite, fmt.Sprintf("dial_on_demand=%v", c.PreAtt < c.Servers), fmt.Sprintf("batch<=%d", c.Batch), fmt.Sprintf("late_dialable=%v", c.LateAt >= 0)}, NonTrivial: nt,
+	v.Info = kit.CaseInfo{Labels: []string{"rewrite=" + c.Rewrite, fmt.Sprintf("dial_on_demand=%v", c.PreAtt < c.Servers), fmt.Sprintf("batch<=%d", c.Batch), fmt.Sprintf("late_dialable=%v", c.LateAt >= 0), fmt.Sprintf("reattach=%v", c.ReattachAt >= 0)}, NonTrivial: nt,
 		Key: fmt.Sprintf("%+v", c), Sample: map[string]any{"clients": c.Clients, "servers": c.Servers, "pre_attached": c.PreAtt, "rewrite": c.Rewrite, "envelopes": len(c.Envs), "first": c.Envs[0]}}
 	return
 }
